@@ -619,7 +619,7 @@ func TestMC_C10(t *testing.T) {
 		fmt.Println("REPLAY-OK property=C10")
 		return
 	}
-	d := 5
+	d := 4
 	if thorough {
 		d = 6
 	}
